@@ -1,6 +1,7 @@
 // target: src/sync.rs
 // labels: put.* store.parents.* store.get_exact.* store.prefixes_of.* store.parent_iterator.* store.remove_prefix_filtered.* store.entry_put.records-row
-// bound: one author, keys over {"", a, ab, b, [61 ff], [62]}, two timestamps, entries and deletion markers; every sequence of up to
+// tier: quick
+// bound: one author per sequence, keys over {"", a, ab, b, [61 ff], [62]}, two timestamps, entries and deletion markers; every sequence of up to
 // three distinct entries in every order. Checks C02: the final state is the same for every order and equals the reference
 // (an entry is held iff no other offered entry of the same author at its key or a prefix of it is >= it).
 #[cfg(test)]
@@ -26,18 +27,24 @@ mod verif_rp_c02_order {
         held.sort(); held.dedup();
         held
     }
-    async fn run(ns: &NamespaceSecret, a: &Author, seq: &[E], base: u64) -> Vec<(Vec<u8>, u64, bool)> {
-        let mut store = Store::memory();
-        let mut r = store.new_replica(ns.clone()).unwrap();
+    /// every sequence is offered under a fresh author of the same document (entries of different authors never interact)
+    async fn run(store: &mut Store, ns: &NamespaceSecret, seq: &[E], base: u64) -> Vec<(Vec<u8>, u64, bool)> {
+        let a = Author::new(&mut rand::rng());
+        let mut r = store.open_replica(&ns.id()).unwrap();
         for e in seq {
-            let _ = r.insert_remote_entry(signed(ns, a, e, base), [1u8; 32], ContentStatus::Missing).await;
+            let _ = r.insert_remote_entry(signed(ns, &a, e, base), [1u8; 32], ContentStatus::Missing).await;
         }
         drop(r);
-        let mut got: Vec<(Vec<u8>, u64, bool)> = store.get_many(ns.id(), Query::all().include_empty()).unwrap()
-            .map(|e| { let e = e.unwrap(); (e.key().to_vec(), e.timestamp() - base, e.is_empty()) }).collect();
+        store.close_replica(ns.id());
+        // read back with point lookups over the key universe (no snapshot, so no commit per sequence)
+        let mut got: Vec<(Vec<u8>, u64, bool)> = vec![];
+        for k in key_universe() {
+            if let Some(e) = store.get_exact(ns.id(), a.id(), &k, true).unwrap() { got.push((e.key().to_vec(), e.timestamp() - base, e.is_empty())); }
+        }
         got.sort();
         got
     }
+    fn key_universe() -> Vec<Vec<u8>> { vec![vec![], vec![0x61], vec![0x61, 0x62], vec![0x62], vec![0x61, 0xff]] }
     fn perms(v: &[E]) -> Vec<Vec<E>> {
         if v.len() <= 1 { return vec![v.to_vec()]; }
         let mut out = vec![];
@@ -52,10 +59,12 @@ mod verif_rp_c02_order {
     #[tokio::test]
     async fn state_is_order_independent_and_matches_reference() {
         let mut rng = rand::rng();
-        let a = Author::new(&mut rng);
         let ns = NamespaceSecret::new(&mut rng);
+        let mut store = Store::memory();
+        drop(store.new_replica(ns.clone()).unwrap());
+        store.close_replica(ns.id());
         let base = system_time_now() - 1_000_000;
-        let keys: Vec<Vec<u8>> = vec![vec![], vec![0x61], vec![0x61, 0x62], vec![0x62], vec![0x61, 0xff]];
+        let keys: Vec<Vec<u8>> = key_universe();
         let mut univ = vec![];
         for k in &keys { for ts in [1u64, 2] { for marker in [false, true] { univ.push(E { key: k.clone(), ts, marker }); } } }
         let n = univ.len();
@@ -66,7 +75,7 @@ mod verif_rp_c02_order {
             // two entries at the same key with equal (ts, hash) are the same entry for the value order; skip same key+ts with different markers only when values tie
             let want = reference(&set);
             for p in perms(&set) {
-                let got = run(&ns, &a, &p, base).await;
+                let got = run(&mut store, &ns, &p, base).await;
                 cases += 1;
                 assert_eq!(got, want, "WITNESS offering {:?} in this order leaves {:?}, expected (any order) {:?}", p, got, want);
             }
